@@ -497,7 +497,34 @@ impl<'tcx> Dumper<'tcx> {
             }
             return jobj(&items);
         }
-        match c.const_.eval(tcx, env, c.span) {
+        let mut evaluated = c.const_.eval(tcx, env, c.span);
+        if evaluated.is_err() {
+            // a promoted constant inside a *provided* trait method is generic over Self and cannot be evaluated as such;
+            // when the crate has exactly one implementor of the trait, evaluate it for that implementor
+            if let mir::Const::Unevaluated(uv, cty) = c.const_ {
+                if uv.promoted.is_some() && !cty.has_param() {
+                    if let Some(parent) = tcx.opt_parent(owner) {
+                        if tcx.def_kind(parent) == DefKind::Trait && tcx.generics_of(parent).count() == 1 {
+                            let impls: Vec<DefId> = tcx.all_impls(parent).filter(|d| d.is_local()).collect();
+                            if impls.len() == 1 {
+                                let self_ty = tcx.type_of(impls[0]).instantiate_identity().skip_norm_wip();
+                                if !self_ty.has_param() {
+                                    let args = tcx.mk_args(&[self_ty.into()]);
+                                    let uv2 = mir::UnevaluatedConst { def: uv.def, args, promoted: uv.promoted };
+                                    let c2 = mir::Const::Unevaluated(uv2, cty);
+                                    let r2 = c2.eval(tcx, TypingEnv::fully_monomorphized(), c.span);
+                                    if r2.is_ok() {
+                                        items.push(("for_impl", jstr(&self.path(impls[0]))));
+                                        evaluated = r2;
+                                    }
+                                }
+                            }
+                        }
+                    }
+                }
+            }
+        }
+        match evaluated {
             Ok(ConstValue::Slice { alloc_id, meta }) => {
                 let alloc = tcx.global_alloc(alloc_id).unwrap_memory();
                 let bytes = alloc
